@@ -50,6 +50,16 @@ Between(w, declared) ==
       ok(p) == LET cand == w.fs[p].id - 1 IN cand >= 1 /\ cand \notin declared /\ (p = 1 \/ cand > w.fs[p - 1].id)
   IN SeqOfSet({[how |-> "add-between", w |-> Struct(InsAt(w.fs, p - 1, Fld(w.fs[p].id - 1, RepAny(t))))] : p \in {q \in 1..n : ok(q)}, t \in BetweenTypes})
 
+\* a retained chunk above the zero-copy threshold (4096), behind and in front of known fields: the writers link such a
+\* chunk into the output instead of copying it.  Only for the definitions every schema shares (the cases are 5 KB each).
+BigDefs == {"Leaf1", "Rec1", "Ex1", "MutA"}
+BigSeq(w, name) ==
+  IF name \notin BigDefs THEN <<>>
+  ELSE LET n == Len(w.fs)
+           big == Fld(4200, Leaf("binary", BinOfLen(5000)))
+       IN <<[how |-> "add-big", w |-> Struct(InsAt(w.fs, IF n >= 1 THEN 1 ELSE 0, big))],
+            [how |-> "add-big", w |-> Struct(InsAt(InsAt(w.fs, n, big), 0, Fld(4201, Leaf("binary", BinOfLen(4096)))))]>>
+
 EvoSeq(w, declared) ==
   LET n == Len(w.fs) IN
   Between(w, declared) \o
@@ -90,7 +100,7 @@ CasesOfDef(sid, S, d) ==
   LET ty == [ref |-> d.name]
       vals == [v \in 1..3 |-> Val(S, ty, v - 1, 0)]
       base == [v \in 1..3 |-> Case(sid, S, d, "base", "v" \o ToString(v - 1), vals[v])]
-      evo == LET es == EvoSeq(vals[2], {d.fields[q].id : q \in 1..Len(d.fields)}) IN [i \in 1..Len(es) |-> Case(sid, S, d, "evo", es[i].how, es[i].w)]
+      evo == LET es == EvoSeq(vals[2], {d.fields[q].id : q \in 1..Len(d.fields)}) \o BigSeq(vals[2], d.name) IN [i \in 1..Len(es) |-> Case(sid, S, d, "evo", es[i].how, es[i].w)]
       dflt == IF d.d = "union" THEN <<>>
               ELSE <<[sid |-> sid, ty |-> d.name, kind |-> "dflt", how |-> "default", w |-> Struct(<<>>),
                       bin |-> <<0>>, binle |-> <<0>>, cs |-> <<0>>,
